@@ -166,11 +166,13 @@ _p('C18', ['r_effects', 'r_emitorder'],
    'get_exported_func(fid), delete nothing and leave the original untouched. Validity of the result rests on R-EMITORDER.',
    not_decided='that the user-supplied body is well typed; behaviour of callers at run time')
 
-_p('C08', ['r_nondet', 'r_restore', 'r_emitorder'],
+_p('C08', ['r_nondet', 'r_restore', 'r_emitorder', 'r_cache'],
    'Sources of nondeterminism and of state change are excluded structurally: no iteration over a RandomState hash container '
    'anywhere in the crate; every IdHash iteration reachable from emit_wasm ends in an order-insensitive sink or is collected '
    'and sorted by a total key; emit_wasm restores every field it moves out of the module and all other access during emit is '
-   'through a shared reference, so emitting alters nothing; emit steps form one fixed order.',
+   'through a shared reference, so emitting alters nothing; emit steps form one fixed order; no field reachable from Module is '
+   'interior-mutable (R-NOCACHE), so a shared reference really cannot record anything - a memoised value would have to be '
+   'reset by every function that hands out mutable access next to it.',
    not_decided='byte equality after an extra parse/emit round trip (needs canonical-form reasoning about wasm-encoder and the '
                'parser; not claimed); determinism of wasm-encoder itself')
 PROPERTIES['C04']['rules'] = ['r_flow', 'r_segments']
